@@ -37,8 +37,8 @@ def run(ctx):
     ]
     return ctx.finish(
         level="proof",
-        rule="a macro-generated family of 137 boundary types (17 built-in leaves, 12 registered types of size/align "
-             "classes 0/1, 0/8, 1, 3, 2, 4, 8, 12/4, 24/8, 16/16, heap-owning; Option/List of every leaf; Result/Verdict "
+        rule="a macro-generated family of 143 boundary types (17 built-in leaves, 14 registered types of size/align "
+             "classes 0/1, 0/8, 1, 3, 2, 4, 8, 12/4, 24/8, 16/16, 32/32, 64/64, heap-owning; Option/List of every leaf; Result/Verdict "
              "pairs; depth 2-3 nestings) x scenarios {identity, registered function echo, registered constant, context "
              "field in 3 manual + 3 derived field orders, script-side construction/matching/?/accept/reject, registered "
              "methods (sized and zero-sized receiver, static), list get/for, every argument position of arities 2/4/7 in "
